@@ -59,8 +59,8 @@ ASSUMPTIONS = [
     "where the specification leaves a choice (1.0 for Int, int kept for ID, single-item wrapping inside an explicit list) every admissible answer is accepted",
 ]
 BOUNDS = {
-    "quick": {"multi_occurrence": "13^2 ordered pairs x 5 placements", "wrapper_depth": 2, "in_presence_fields": 3, "arg_presence": "7^3", "object_literal_presence": "7^3", "sdl_default_depth": 1},
-    "thorough": {"multi_occurrence": "23^2 ordered pairs x 5 placements + 8^3 triples x 2 placements", "wrapper_depth": 3, "in_presence_fields": 5, "arg_presence": "7^3", "object_literal_presence": "7^3", "sdl_default_depth": 2},
+    "quick": {"multi_occurrence": "15^2 ordered pairs x 5 placements", "wrapper_depth": 2, "in_presence_fields": 3, "arg_presence": "7^3", "object_literal_presence": "7^3", "sdl_default_depth": 1},
+    "thorough": {"multi_occurrence": "22^2 ordered pairs x 5 placements + 8^3 triples x 2 placements", "wrapper_depth": 3, "in_presence_fields": 5, "arg_presence": "7^3", "object_literal_presence": "7^3", "sdl_default_depth": 2},
 }
 TIME_CAP = {"quick": 300, "thorough": 1500}
 
@@ -989,7 +989,7 @@ MULTI_ASSIGN += [
     ["B", "var-unset", "var-unset", "y"],
 ]
 # quick: nothing / literal / variable / unset variable / null / default per argument kind
-MULTI_QUICK = [0, 1, 3, 4, 6, 8, 9, 11, 13, 14, 17, 19, 20]
+MULTI_QUICK = [0, 1, 3, 4, 5, 6, 8, 9, 11, 13, 14, 15, 17, 19, 20]
 MULTI_TRIPLE = [0, 1, 4, 6, 9, 14, 19, 20]
 MULTI_SHAPES = ("aliases", "parents-same-key", "list-items", "merged", "depths")
 
